@@ -4,6 +4,8 @@ Implementations of IInput
 import logging
 from datetime import datetime
 
+import numpy as np
+
 from ..data import tools
 from ..data.tools import Info
 from ..errors import FinamMetaDataError
@@ -139,7 +141,7 @@ class Input(IInput, Loggable):
         # transform compatible data between grids
         if self._transform is not None:
             with ErrorLogger(self.logger):
-                data = self._transform(data)
+                data = _transform_time_slices(self._transform, data)
             self.logger.profile(
                 "converted data between compatible grids (%d entries)", data.size
             )
@@ -232,6 +234,18 @@ class Input(IInput, Loggable):
     def uses_base_logger_name(self):
         """Whether this class has a ``base_logger_name`` attribute. True."""
         return True
+
+
+def _transform_time_slices(transform, data):
+    """Apply a transformation between compatible grids to every time slice.
+
+    Grid transformations work on data in the grid's data shape,
+    while data on a link always carries a leading time axis.
+    """
+    magn = data.magnitude
+    slices = [transform(magn[i]) for i in range(magn.shape[0])]
+    stack = np.ma.stack if np.ma.isMaskedArray(magn) else np.stack
+    return tools.UNITS.Quantity(stack(slices), data.units)
 
 
 class CallbackInput(Input):
